@@ -204,7 +204,15 @@ theorem predFut_q_ok (x : MonCtx) (m : PredSt)
       · simp [hs, hlim] at hn
   · rcases hlim : x.c.limit with _ | _ | l
     · simp only [hlim] at hn; cases hn
-    · simp only [hlim] at hn; cases hn
+    · -- `limit = some 0` means unbounded: the C10 note states the fact of the C06 note
+      simp only [hlim] at hn
+      split at hn
+      · rename_i hc
+        simp only [Bool.and_eq_true, Option.isNone_iff_eq_none, List.isEmpty_iff,
+          Bool.not_eq_true'] at hc
+        simp only [List.mem_singleton] at hn; subst hn
+        exact h6 hc.1.1 hc.1.2 hc.2 (Or.inr hlim)
+      · cases hn
     · simp only [hlim] at hn
       split at hn
       · rename_i hc
